@@ -65,3 +65,11 @@ CHECKS["C18"] = dict(
     design_ref="DESIGN.md section 3 C18",
     note="Spec difference = Spec.__eq__ plus comparison of the plain-data fields; refusal types ValueError/TypeError/NotImplementedError; falsy reserved_mem means unset. Sampled, not exhaustive.",
 )
+
+CHECKS["C02"] = dict(
+    level="exploration",
+    technique="property-based differential testing: generated fusion-rich programs x requested-array sets x optimizer settings; optimized run vs optimize_graph=False run (and NumPy), plus read-back of every requested array from storage with plain zarr",
+    text="The unoptimized run provides the reference values; the intermediate store is then emptied and the same arrays are computed under a drawn optimizer (default, multiple-input with drawn limits incl. None, always_fuse/never_fuse subsets, legacy simple_optimize_dag, fuse-all, fuse-only) on a drawn executor. Every requested array must have exactly the reference values (stated float tolerance only where results are not exactly representable) and must be fully materialized in storage. Requested sets deliberately include ancestors of other requested arrays.",
+    design_ref="DESIGN.md section 3 C02",
+    note="Forced fusion uses a large allowed_mem; max_total_source_arrays=None is outside the supported parameter domain.",
+)
